@@ -142,7 +142,8 @@ def check_runtime_sampling(ctx, R="C19.runtime"):
     d_ = lib.local_from(fn, "super().__new__(cls)", what="new distribution object")
     s_ = lib.local_from(fn, "veneer.simulation()", what="current simulation")
     m_ = lib.local_from(fn, "DefaultIdentityDict()", what="fresh subsample map")
-    v_ = lib.locals_assigned(fn, lambda v: unparse(v) == f"{d_}.sample({m_})")
+    # the value: whatever local receives <dist>.sample(...) (its argument is checked below, not assumed here)
+    v_ = lib.locals_assigned(fn, lambda v: isinstance(v, ast.Call) and unparse(v.func) == f"{d_}.sample")
     if len(v_) != 1:
         raise AnalysisError("shape not recognised: the sampled value of Distribution.__new__")
     ren = {d_: "dist", s_: "sim", m_: "subsamples", v_[0]: "value"}
